@@ -11,6 +11,7 @@ import newton
 import compose
 import reduce as reduce_rows
 import invariant
+import swo
 
 # (n variables, p equalities, m inequalities): quick tier = no equalities, no inequalities, a mixed one and the largest one
 QUICK_SHAPES = [(1, 0, 1), (2, 1, 2), (3, 2, 2), (2, 1, 0)]
@@ -49,6 +50,7 @@ def build(tier):
     jobs += [guarded(j, what) for j, what in compose.jobs(tier, shapes, info)]
     jobs += [guarded(j, what) for j, what in reduce_rows.jobs(tier, shapes, info)]
     jobs += [guarded(j, what) for j, what in invariant.jobs(tier, shapes, info)]
+    jobs += [guarded(j, what) for j, what in swo.jobs(tier, shapes, info)]
     vcs = []
     for r in [j() for j in jobs]:
         vcs += r
